@@ -1,5 +1,6 @@
 #!/usr/bin/env python3
-"""seed.py <PID> <srcdir> <name> [--checks C01,C02] — validate a seeded change and run checks against it.
+"""seed.py <PID> <srcdir> <name> [--checks C01,C02] [--no-tests] — validate a seeded change and run checks against it.
+(--no-tests: re-validation of an already validated seed; the pinned suite is not run again, the recorded result is kept.)
 
 srcdir contains patch.diff, demo.py, notes.md (written by an independent sub-agent in a scratch worktree).
 Steps: (1) demo on clean /repo exits 0; (2) git -C /repo apply patch; demo exits non-zero; baseline tests unchanged;
@@ -35,11 +36,15 @@ def main():
     dst = os.path.join(VERIF, 'seeded', name)
     os.makedirs(dst, exist_ok=True)
     for f in ('patch.diff', 'demo.py', 'notes.md'):
-        if os.path.exists(os.path.join(src, f)):
+        if os.path.exists(os.path.join(src, f)) and os.path.abspath(src) != os.path.abspath(dst):
             shutil.copy(os.path.join(src, f), os.path.join(dst, f))
     meta = {'property': pid, 'name': name, 'ran': []}
     assert sh('git status --porcelain', cwd=REPO)[1].strip() == '', '/repo not clean'
-    base_tests = tests()
+    skip_tests = '--no-tests' in sys.argv
+    old = {}
+    if skip_tests and os.path.exists(os.path.join(dst, 'meta.json')):
+        old = json.load(open(os.path.join(dst, 'meta.json')))
+    base_tests = None if skip_tests else tests()
     rc0, out0 = sh(f'{PY} {dst}/demo.py', cwd=REPO, timeout=300)
     meta['demo_clean_exit'] = rc0
     rc, out = sh(f'git apply {dst}/patch.diff', cwd=REPO)
@@ -52,7 +57,7 @@ def main():
         rc1, out1 = sh(f'{PY} {dst}/demo.py', cwd=REPO, timeout=300)
         meta['demo_patched_exit'] = rc1
         meta['demo_patched_tail'] = out1[-400:]
-        meta['tests_unchanged'] = tests() == base_tests
+        meta['tests_unchanged'] = old.get('tests_unchanged', False) if skip_tests else (tests() == base_tests)
         det = {}
         for c in checks:
             rc2, out2 = sh(f'VERIF_REPO={REPO} ./check {c} quick', cwd=VERIF, timeout=3000)
